@@ -126,6 +126,10 @@ class Harness:
           st, model = sj.prove(list(assumptions) + ctx.all_facts(), g, self.timeout)
       else:
         st, model = sj.prove(list(assumptions) + ctx.all_facts(), g, self.timeout)
+      if st != 'unsat' and sj.RICH_TRANS[0] and getattr(ctx, 'rich', None):
+        # not proved from the plain facts: decide again with the elementary bounds of exp/log added (true facts, so `unsat` is
+        # sound; a model found under them is close enough to the real functions to replay)
+        st, model = sj.prove(list(assumptions) + ctx.all_facts() + list(ctx.rich), g, self.timeout)
       self.run.ob('%s:%s:%s' % (self.name, label, nm), st, time.time() - t,
                   detail=(str(model)[:300] if st != 'unsat' else None), nontrivial=sj.is_z(g))
       if st == 'sat':
